@@ -281,20 +281,17 @@ def _impl_for(cf, mod, trait_suffix):
     return out
 
 
-def validate_program(run, cf, row):
-    mod = row["module"]
-    key = "%s[%s|%s|%s|%s|%s|%s]" % (mod, row["ret"], row["attr"], row["actor"], row["msg"], "extra" if row["extra"] else "-", row["actor_impl"])
-    tag = "%s|%s" % (row["ret"], row["attr"])
+def validate_handler(run, cf, mod, key, tag, h):
     bad = 0
-    ims = _impl_for(cf, mod, "::Message")
-    if not run.require(len(ims) == 1, "O19.1", "message-impl:%s" % tag, "%s: %d `impl Message` generated" % (key, len(ims)), "one impl Message<M> for A"):
-        return 1
+    ims = [im for im in _impl_for(cf, mod, "::Message") if len(im.get("trait_targs", [])) > 1 and cf.ty(im["trait_targs"][1]).s.replace(mod + "::", "") == h["msg_ty"]]
+    if not run.require(len(ims) == 1, "O19.1", "message-impl:%s" % tag, "%s: %d `impl Message<%s>` generated" % (key, len(ims), h["msg_ty"]), "one impl Message<%s> for A" % h["msg_ty"]):
+        return 1, None, None
     im = ims[0]
     items = {it["name"]: it for it in im["items"]}
     # the user's method and its declared return type
-    meth = [d for d, fn in cf.fns.items() if d.startswith(mod + "::") and fn["name"] == "h" and not fn.get("impl_trait")]
+    meth = [d for d, fn in cf.fns.items() if d.startswith(mod + "::") and fn["name"] == h["name"] and not fn.get("impl_trait")]
     if not run.require(len(meth) == 1, "O19.1", "user-method-kept:%s" % tag, "%s: the handler method is no longer present after expansion" % key, "user's method still present"):
-        return 1
+        return 1, None, None
     mfn = cf.fns[meth[0]]
     out_s = cf.ty(mfn["output"]).s
     reply = cf.ty(items["Reply"]["ty"]).s if "Reply" in items and "ty" in items["Reply"] else None
@@ -304,8 +301,8 @@ def validate_program(run, cf, row):
     if not run.require(ok_reply, "O19.1", "reply-type:%s" % tag, "%s: Reply = %s but the method returns %s" % (key, reply, out_s), "Reply == declared return type (%s)" % reply):
         bad += 1
     targ = cf.ty(im["trait_targs"][1]).s if len(im.get("trait_targs", [])) > 1 else None
-    want_m = mod + "::" + row["msg_ty"].replace("<u8>", "<u8>")
-    run.require(targ is not None and targ.replace(mod + "::", "") == row["msg_ty"], "O19.1", "message-type:%s" % tag, "%s: impl Message<%s>, expected %s" % (key, targ, row["msg_ty"]), "Message<%s>" % row["msg_ty"])
+    want_m = mod + "::" + h["msg_ty"].replace("<u8>", "<u8>")
+    run.require(targ is not None and targ.replace(mod + "::", "") == h["msg_ty"], "O19.1", "message-type:%s" % tag, "%s: impl Message<%s>, expected %s" % (key, targ, h["msg_ty"]), "Message<%s>" % h["msg_ty"])
     # handle is a verbatim forwarder
     hb = [b for b in cf.fn_bodies() if b.is_coroutine and (b.root or "") == items["handle"]["def"]] if "handle" in items else []
     okh = len(hb) == 1
@@ -330,8 +327,8 @@ def validate_program(run, cf, row):
         bad += 1
     # on_tell_result override iff the table says so
     has = "on_tell_result" in items
-    if not run.require(has == row["expect_override"], "O19.3", "on_tell_result-table:%s" % tag,
-                       "%s: on_tell_result %s generated but the documented table says it %s be" % (key, "is" if has else "is not", "should" if row["expect_override"] else "should not"),
+    if not run.require(has == h["expect_override"], "O19.3", "on_tell_result-table:%s" % tag,
+                       "%s: on_tell_result %s generated but the documented table says it %s be" % (key, "is" if has else "is not", "should" if h["expect_override"] else "should not"),
                        "override %s, as the table says" % ("generated" if has else "absent")):
         bad += 1
     if has:
@@ -363,6 +360,22 @@ def validate_program(run, cf, row):
             oko = err_arm is not None and not outside and not effects and len(logs) >= 1
         if not run.require(oko, "O19.3", "on_tell_result-body:%s" % tag, "%s: generated on_tell_result does something other than logging under Err" % key, "logs only under Err(e), nothing else"):
             bad += 1
+    return bad, reply, has
+
+
+def validate_program(run, cf, row):
+    mod = row["module"]
+    key = "%s[%s|%s|%s|%s|%s|%s]" % (mod, row["ret"], row["attr"], row["actor"], row["msg"], "extra" if row["extra"] else "-", row["actor_impl"])
+    bad = 0
+    handlers = row.get("handlers") or [{"name": "h", "msg_ty": row["msg_ty"], "ret": row["ret"], "attr": row["attr"], "expect_override": row["expect_override"]}]
+    n_impls = len(_impl_for(cf, mod, "::Message"))
+    if not run.require(n_impls == len(handlers), "O19.1", "message-impl:%s|%s" % (row["ret"], row["attr"]), "%s: %d `impl Message` generated for %d handler(s)" % (key, n_impls, len(handlers)), "one impl Message<M> per handler"):
+        return 1
+    reply = has = None
+    for pos, h in enumerate(handlers):
+        tag = "%s|%s" % (h["ret"], h["attr"]) if len(handlers) == 1 else "%s|%s@%d-of[%s]" % (h["ret"], h["attr"], pos, row["attr"])
+        b_, reply, has = validate_handler(run, cf, mod, key, tag, h)
+        bad += b_
     # derive(Actor)
     if row["actor_impl"] == "derive":
         ais = _impl_for(cf, mod, "::Actor")
@@ -382,7 +395,7 @@ def validate_program(run, cf, row):
         if not run.require(okd, "O19.4", "derive-actor:%s" % row["actor"], "%s: derive(Actor) does not yield Args=Self, Error=Infallible, on_start = Ok(args)" % key, "Args = Self, Error = Infallible, on_start returns Ok(args)"):
             bad += 1
     if len(run.samples) < 6:
-        run.sample({"program": key, "reply": reply, "override": has, "oracle_override": row["expect_override"]})
+        run.sample({"program": key, "reply": reply, "override": has, "oracle_override": handlers[-1]["expect_override"]})
     return bad
 
 
